@@ -73,7 +73,7 @@ fn skipped(name: &str, arity: usize) -> Option<&'static str> {
 
 /// argument positions whose values are restricted to keep allocation bounded (resource, not crash)
 fn small_only(name: &str, arity: usize) -> bool {
-    matches!((name, arity), ("combinations", 1) | ("limit", 2) | ("range", 1) | ("range", 2) | ("range", 3) | ("repeat", 1) | ("flatten", 1))
+    matches!((name, arity), ("combinations", 1) | ("limit", 2) | ("range", 1) | ("range", 2) | ("range", 3) | ("repeat", 1) | ("flatten", 1) | ("jn", 2) | ("yn", 2))
 }
 
 fn program_for(name: &str, arity: usize, mode: usize) -> String {
@@ -164,6 +164,35 @@ fn count_strings(alpha: &[&str], maxlen: usize) -> u64 {
     (1..=maxlen).map(|l| (alpha.len() as u64).pow(l as u32)).sum()
 }
 
+/// Every label span `(start..end, ` in the debug rendering of the reports lies inside the filter text,
+/// on character boundaries.
+fn spans_inside(code: &str, dbg: &str) {
+    let b = dbg.as_bytes();
+    let mut i = 0;
+    while i < b.len() {
+        if b[i] == b'(' && i + 1 < b.len() && b[i + 1].is_ascii_digit() {
+            let num = |mut j: usize| {
+                let s = j;
+                while j < b.len() && b[j].is_ascii_digit() {
+                    j += 1;
+                }
+                (dbg[s..j].parse::<usize>().ok(), j)
+            };
+            let (a, j) = num(i + 1);
+            if dbg[j..].starts_with("..") {
+                let (e, k) = num(j + 2);
+                if dbg[k..].starts_with(", ") {
+                    match (a, e) {
+                        (Some(a), Some(e)) if a <= e && e <= code.len() && code.is_char_boundary(a) && code.is_char_boundary(e) => (),
+                        _ => std::panic::panic_any(format!("reported span {} lies outside the filter text (length {})", &dbg[i + 1..k], code.len())),
+                    }
+                }
+            }
+        }
+        i += 1;
+    }
+}
+
 /// check one filter text: lex, parse, load, compile, render every report; run accepted programs on null
 fn check_text(code: &str) -> Result<u8, String> {
     use jaq_all::jaq_core::load::{Arena, File, Loader};
@@ -175,6 +204,7 @@ fn check_text(code: &str) -> Result<u8, String> {
             Err(errs) => {
                 let reports = jaq_all::load::load_errors(errs);
                 for r in &reports {
+                    spans_inside(code, &format!("{:?}", r.1));
                     let plain = format!("{}", jaq_all::load::FileReportsDisp::new(r));
                     let colored = format!("{}", jaq_all::load::FileReportsDisp::new(r).with_paint(|f, c, d| match c {
                         Some(c) => c.ansi(f, d),
@@ -198,6 +228,7 @@ fn check_text(code: &str) -> Result<u8, String> {
             Err(errs) => {
                 let reports = jaq_all::load::compile_errors(errs);
                 for r in &reports {
+                    spans_inside(code, &format!("{:?}", r.1));
                     let _ = format!("{}", jaq_all::load::FileReportsDisp::new(r));
                 }
                 2u8
@@ -240,7 +271,7 @@ impl Ctx {
 
     fn spaces(&self) -> Vec<Space> {
         let p = self.pool.len() as u64;
-        let natives: u64 = self.filts.iter().map(|f| p.pow(1 + f.arity.min(2) as u32) * if f.arity > 2 { 8u64.pow(f.arity as u32 - 2) } else { 1 }).sum();
+        let natives: u64 = self.filts.iter().map(|f| self.native_count(f)).sum();
         let toklen = if self.quick { 3 } else { 4 };
         let mut v = vec![Space { name: "natives", total: natives }, Space { name: "filter-text", total: count_strings(TOKENS, toklen) }, Space { name: "cbor-bytes", total: if self.quick { 256 + 65536 } else { 256 + 65536 + 16_777_216 } }];
         let docs: u64 = self.docprogs.iter().map(|(_, a, n, _)| count_strings(a, *n)).sum();
@@ -248,19 +279,34 @@ impl Ctx {
         v
     }
 
+    /// number of argument positions (besides the input) that range over the whole pool;
+    /// further positions range over 8 values spread over the pool
+    fn exh(&self) -> usize {
+        if self.quick {
+            1
+        } else {
+            2
+        }
+    }
+
+    fn native_count(&self, f: &Filt) -> u64 {
+        let p = self.pool.len() as u64;
+        let e = self.exh();
+        p.pow(1 + f.arity.min(e) as u32) * if f.arity > e { 8u64.pow((f.arity - e) as u32) } else { 1 }
+    }
+
     /// decode a native case index into (filter index, input, args)
     fn native_case(&self, mut idx: u64) -> (usize, Vec<usize>) {
         let p = self.pool.len() as u64;
         for (fi, f) in self.filts.iter().enumerate() {
-            let extra = if f.arity > 2 { 8u64.pow(f.arity as u32 - 2) } else { 1 };
-            let n = p.pow(1 + f.arity.min(2) as u32) * extra;
+            let n = self.native_count(f);
             if idx < n {
                 let mut sel = vec![];
-                for _ in 0..(1 + f.arity.min(2)) {
+                for _ in 0..(1 + f.arity.min(self.exh())) {
                     sel.push((idx % p) as usize);
                     idx /= p;
                 }
-                for k in 2..f.arity {
+                for k in self.exh()..f.arity {
                     // positions beyond the second range over 8 pool values spread over the pool
                     let j = (idx % 8) as usize;
                     sel.push((j * self.pool.len() / 8 + k) % self.pool.len());
@@ -395,6 +441,15 @@ fn is_resource(msg: &str) -> bool {
     msg.contains("capacity overflow") || msg.contains("memory allocation") || msg.contains("stack overflow") || msg.contains("alloc")
 }
 
+/// `vmc c05-describe <quick|thorough> <family> <index>...`: print the case behind an index (replay aid)
+pub fn describe_cmd(args: &[String]) -> ! {
+    let ctx = Ctx::new(args[0] == "quick");
+    for i in &args[2..] {
+        println!("{} {}", i, ctx.describe(&args[1], i.parse().unwrap()));
+    }
+    std::process::exit(0)
+}
+
 /// child: run cases [from, to) of a family with stride, publishing progress
 pub fn child(args: &[String]) -> ! {
     jq::quiet_panics();
@@ -413,7 +468,8 @@ pub fn child(args: &[String]) -> ! {
                 if cur != last {
                     last = cur;
                     since = std::time::Instant::now();
-                } else if cur != 0 && since.elapsed().as_secs() >= 20 {
+                } else if cur != 0 && since.elapsed().as_secs() >= 10 {
+                    eprintln!("no progress for 10 s on case {}", cur - 1);
                     println!("HANG {}", cur - 1);
                     std::process::exit(3);
                 }
@@ -452,16 +508,24 @@ pub fn main(tier: Tier) -> ! {
     for sp in ctx.spaces() {
         // shards are contiguous index ranges; a shard whose child dies is resumed after the fatal case
         let mut c = Counts::default();
-        let per = sp.total.div_ceil(nshards);
+        // small contiguous chunks handed to 16 workers (cases differ a lot in cost)
+        let per = sp.total.div_ceil(nshards * 24).max(2000);
+        let nchunks = sp.total.div_ceil(per);
+        eprintln!("[C05] {}: {} cases in {nchunks} chunks (t={:.0}s)", sp.name, sp.total, run.elapsed());
+        let next = std::sync::Arc::new(AtomicU64::new(0));
         let mut handles = vec![];
-        for s in 0..nshards {
-            let (from, to) = (s * per, ((s + 1) * per).min(sp.total));
-            if from >= to {
-                continue;
-            }
+        for _w in 0..nshards {
             let (exe, scratch, fam, ctxq) = (exe.clone(), scratch.clone(), sp.name.to_string(), run.quick());
             let deadline = run.deadline_s;
+            let (next, total) = (next.clone(), sp.total);
             handles.push(std::thread::spawn(move || {
+              let mut results = vec![];
+              loop {
+                let s = next.fetch_add(1, Ordering::Relaxed);
+                if s >= nchunks {
+                    break;
+                }
+                let (from, to) = (s * per, ((s + 1) * per).min(total));
                 let pf = scratch.join(format!("{fam}-{s}.progress"));
                 let pfs = pf.to_str().unwrap().to_string();
                 let progress = map_progress(&pfs, true);
@@ -519,15 +583,16 @@ pub fn main(tier: Tier) -> ! {
                     }
                 }
                 let _ = std::fs::remove_file(&pf);
-                (from, to, cur, done, panics, aborts, outcomes, hangs)
+                results.push((from, to, cur, done, panics, aborts, outcomes, hangs));
+              }
+              results
             }));
         }
         let mut outcomes = [0u64; 10];
         let mut resource = 0u64;
         let mut complete = true;
         let mut nonterm: Vec<serde_json::Value> = vec![];
-        for h in handles {
-            let (from, to, cur, done, panics, aborts, oc, hangs) = h.join().unwrap();
+        for (from, to, cur, done, panics, aborts, oc, hangs) in handles.into_iter().flat_map(|h| h.join().unwrap()) {
             let _ = from;
             for h in hangs {
                 nonterm.push(ctx.describe(sp.name, h));
@@ -577,6 +642,6 @@ pub fn main(tier: Tier) -> ! {
     run.sample(json!({"pool": ctx.pool.iter().map(|v| v.to_string().chars().take(40).collect::<String>()).collect::<Vec<_>>()}));
     run.finish(
         "natives: every native filter and definition discovered from the tree (in value, path(.) and `|= .` position) x all tuples of input and arguments over a pool of boundary values (exhaustive for arity <= 2, 8 spread values for further positions); filter text: all token strings of length <= 3 (thorough 4) over 71 tokens, lexed, parsed, loaded, compiled, every report rendered plain and coloured, accepted programs run; documents: all token strings per format over structural alphabets through fromjson/fromyaml/fromtoml/fromxml/fromcsv/fromtsv/@base64d and all byte strings of length <= 2 (thorough 3) through fromcbor. Every case runs in a child process under catch_unwind with overflow checks and debug assertions; a panic, abort or signal is a violation, allocation failure and capacity overflow are counted as excluded. distinct non-trivial counts distinct case indices (capped at 200000 entries) ",
-        &["arguments that control repetition or generation counts are limited to |n| <= 64 (allocation size is a resource)", "until/2 with constant arguments, halt_error, debug, stderr, input(s) are not swept (listed in filters_skipped)"],
+        &["arguments that control repetition or generation counts are limited to |n| <= 64 (allocation size is a resource); so is the order of the Bessel functions jn/yn, whose libm implementation takes time linear in the order (seconds for 2^31, not a crash)", "until/2 with constant arguments, halt_error, debug, stderr, input(s) are not swept (listed in filters_skipped)"],
     )
 }
